@@ -10,6 +10,7 @@ import Cicada.Model.ScriptRun
 import Cicada.Spec.C14
 import Cicada.Spec.C15
 import Cicada.Spec.C06
+import Cicada.Model.CalcFloat
 import Cicada.Model.History
 import Cicada.Model.HistPrompt
 import Cicada.Model.EnvCd
@@ -1099,6 +1100,17 @@ def answer (stream : String) (f : Array String) : Ans :=
          | none => { a with guard := "0", cls := "outside-statement:exponent-or-literal" })
       | _ => { a with s := "BAD-TREE" }
     else a
+  | "calcf" =>
+    -- the printed result itself, float mode included on the exactly representable class (Model/CalcFloat.lean)
+    let line := unhex (g 0)
+    (match Calc.calculate line with
+     | none => { m := "err" }
+     | some f =>
+       if line.contains '.' then
+         (match Calc.floatText f with
+          | some t => { m := "ok|" ++ hex t, s := "ok|" ++ hex t, guard := "1" }   -- exact arithmetic IS the reference value here
+          | none => { m := "UNMODELLED:float-outside-exact-class" })
+       else { m := outcomeStr (fun z => "ok|" ++ hex (showInt z)) (Calc.evalFlat f) })
   | "fdsess" =>
     let r := FdDriver.run (g 7 = "script") ((g 0).toNat?.getD 0) (FdDriver.parseItems (g 1)) (FdDriver.strSet (g 2)) (FdDriver.strSet (g 3))
       (FdDriver.strSet (g 4)) (FdDriver.strSet (g 5)) (FdDriver.parseFiles (g 6))
